@@ -697,12 +697,21 @@ func CreateUpdateMsgFromPaths(pathList []*Path, options ...*bgp.MarshallingOptio
 	// Since sendMessageloop coalesces outgoing BGP UPDATE messages and
 	// the packers emit withdrawals before announcements, we should keep only the
 	// last action for each NLRI/path-id within one packing pass.
+	// The key is the one the receiver uses: the path identifier only distinguishes
+	// routes when ADD-PATH is enabled for the family on this session.
+	lastKey := func(path *Path) PathLocalKey {
+		key := path.GetLocalKey()
+		if !bgp.IsAddPathEnabled(false, path.GetFamily(), options) {
+			key.Id = 0
+		}
+		return key
+	}
 	last := make(map[PathLocalKey]*Path, len(pathList))
 	for _, path := range pathList {
 		if path == nil || path.IsEOR() {
 			continue
 		}
-		last[path.GetLocalKey()] = path
+		last[lastKey(path)] = path
 	}
 
 	m := make(map[bgp.Family]packerInterface)
@@ -722,7 +731,7 @@ func CreateUpdateMsgFromPaths(pathList []*Path, options ...*bgp.MarshallingOptio
 			add(path)
 			continue
 		}
-		if last[path.GetLocalKey()] != path {
+		if last[lastKey(path)] != path {
 			continue
 		}
 		add(path)
